@@ -1,1 +1,22 @@
-//! Hooks for property C18 (empty until needed).
+//! Hooks for property C18: crate-private items the correspondence harness drives directly.
+//! Add-only; compiled only with `--cfg rustic_rs_rustic_core_verif`.
+use crate::{error::RusticResult, repofile::ConfigFile};
+
+/// `PackSizer` lives in the crate-private module `blob::packer`.
+pub use crate::blob::packer::PackSizer;
+pub use crate::blob::BlobType;
+
+/// `chunker::rabin::check_rabin_params` (pub(crate)).
+pub fn check_rabin_params(chunk_size: usize, chunk_min_size: usize, chunk_max_size: usize) -> RusticResult<()> {
+    crate::chunker::rabin::check_rabin_params(chunk_size, chunk_min_size, chunk_max_size)
+}
+
+/// Chunk lengths produced by the chunker a `ConfigFile` selects, on the given bytes.
+pub fn chunk_lengths(config: &ConfigFile, data: &[u8]) -> RusticResult<Vec<usize>> {
+    let it = crate::chunker::ChunkIter::from_config(config, std::io::Cursor::new(data.to_vec()), data.len())?;
+    let mut v = Vec::new();
+    for c in it {
+        v.push(c?.len());
+    }
+    Ok(v)
+}
